@@ -55,10 +55,43 @@ type pgScn struct {
 
 var c12Engine = "pango"
 
-func c12HTML(s *pgScn) string {
+// c12PageH is the page height that leaves room for h lines: variant 0 has 10px margins, variant 1 has vertical margins
+// of 25% (of the page HEIGHT, CSS Paged Media 3 section 7.2).
+func c12PageH(h, variant int) int {
+	if variant == 1 {
+		return 20*h + 8
+	}
+	return h*10 + 4 + 20
+}
+
+// spellings of the break values: the specification's value is the first of each list
+var c12Spell = map[string][]string{
+	"before:page":  {"break-before:page", "break-before:always", "page-break-before:always"},
+	"after:page":   {"break-after:page", "break-after:always", "page-break-after:always"},
+	"before:left":  {"break-before:left", "page-break-before:left", "break-before:verso"},
+	"after:left":   {"break-after:left", "page-break-after:left", "break-after:verso"},
+	"before:right": {"break-before:right", "page-break-before:right", "break-before:recto"},
+	"after:right":  {"break-after:right", "page-break-after:right", "break-after:recto"},
+	"before:avoid": {"break-before:avoid", "page-break-before:avoid", "break-before:avoid-page"},
+	"after:avoid":  {"break-after:avoid", "page-break-after:avoid", "break-after:avoid-page"},
+	"inside:avoid": {"break-inside:avoid", "page-break-inside:avoid", "break-inside:avoid-page"},
+}
+
+func c12Break(kind, v string, k int) string {
+	if sp, ok := c12Spell[kind+":"+v]; ok {
+		return sp[k%len(sp)]
+	}
+	return "break-" + kind + ":" + v
+}
+
+func c12HTML(s *pgScn, variant int) string {
 	var b strings.Builder
-	pageH := func(h int) int { return h*10 + 4 + 20 }
-	fmt.Fprintf(&b, `<html><head><style>@page{size:200px %dpx;margin:10px;@bottom-center{content:counter(page) "/" counter(pages);font-family:weasyprint;font-size:8px;line-height:10px}}`, pageH(s.H))
+	pageH := func(h int) int { return c12PageH(h, variant%2) }
+	margin := "10px"
+	if variant%2 == 1 {
+		margin = "25% 10px"
+	}
+	fmt.Fprintf(&b, `<html><head><style>@page{size:200px %dpx;margin:`+strings.ReplaceAll(margin, "%", "%%")+`;@bottom-center{content:counter(page) "/" counter(pages);font-family:weasyprint;font-size:8px;line-height:10px}}`, pageH(s.H))
 	if s.Hfirst != 0 {
 		fmt.Fprintf(&b, `@page :first{size:200px %dpx}`, pageH(s.Hfirst))
 	}
@@ -74,8 +107,8 @@ func c12HTML(s *pgScn) string {
 	case 2:
 		b.WriteString("<section><article>")
 	}
-	for _, blk := range s.Doc {
-		fmt.Fprintf(&b, `<p style="break-before:%s;break-after:%s;break-inside:%s;orphans:%d;widows:%d">`, blk.Bb, blk.Ba, blk.Bi, blk.Orphans, blk.Widows)
+	for k, blk := range s.Doc {
+		fmt.Fprintf(&b, `<p style="%s;%s;%s;orphans:%d;widows:%d">`, c12Break("before", blk.Bb, variant+k), c12Break("after", blk.Ba, variant/2+k), c12Break("inside", blk.Bi, variant+k), blk.Orphans, blk.Widows)
 		for j := 0; j < blk.Lines; j++ {
 			if j > 0 {
 				b.WriteString("<br>")
@@ -104,6 +137,8 @@ type obsPage struct {
 	margin []string
 	w, h   float64
 	ml, mr float64
+	mt, mb float64
+	ch     float64 // height of the content box
 	bottom float64
 	maxY   float64
 }
@@ -114,6 +149,7 @@ func c12Observe(pages []*boxes.PageBox) ([]obsPage, string) {
 		o := obsPage{Lines: []int{}, Right: p.PageType.Side == "right", Blank: p.PageType.Blank, First: p.PageType.First}
 		o.w, o.h, o.ml, o.mr = float64(p.MarginWidth()), float64(p.MarginHeight()), float64(p.MarginLeft.V()), float64(p.MarginRight.V())
 		o.bottom = float64(p.ContentBoxY()) + float64(p.Height.V())
+		o.mt, o.mb, o.ch = float64(p.MarginTop.V()), float64(p.MarginBottom.V()), float64(p.Height.V())
 		for _, c := range p.Children {
 			_, isMargin := c.(*boxes.MarginBox)
 			drv.Walk(c, func(bx boxes.Box, _ int) bool {
@@ -162,7 +198,8 @@ func c12Main(args []string) int {
 			out.Fatal("bad scenario: " + err.Error())
 			return
 		}
-		doc := c12HTML(&s)
+		variant := out.Cur % 6
+		doc := c12HTML(&s, variant)
 		pages, r, err := drv.RenderPages(doc, &drv.Opts{Engine: c12Engine})
 		if err != nil {
 			out.Fatal(err.Error())
@@ -223,7 +260,14 @@ func c12Main(args []string) int {
 			if i == 0 && s.Hfirst != 0 {
 				capLines = s.Hfirst
 			}
-			wantH := float64(capLines*10 + 24)
+			wantH := float64(c12PageH(capLines, variant%2))
+			wantMT := 10.0
+			if variant%2 == 1 {
+				wantMT = wantH / 4
+			}
+			if math.Abs(o.mt-wantMT) > 0.01 || math.Abs(o.mb-wantMT) > 0.01 || math.Abs(o.ch-float64(capLines*10+4)) > 0.01 {
+				out.Disagree("C12:geometry:vertical-margins", fmt.Sprintf("page %d has margin-top %g, margin-bottom %g, content height %g instead of %g, %g, %d: %s", i+1, o.mt, o.mb, o.ch, wantMT, wantMT, capLines*10+4, show()), detail())
+			}
 			wantML := 20.0
 			if o.Right {
 				wantML = 30
